@@ -51,7 +51,7 @@ def strategy(tier):
     return st.one_of(
         _case(gen.admgs(2, mx), True),
         _case(gen.admgs(2, mx, bi_densities=(0, 2), di_densities=(4, 6, 8)), True),
-        _case(gen.admgs(2, mx), False),
+        _case(gen.with_odd_names(gen.admgs(2, mx), 6), False),
         _case(gen.admgs(2, mx, bi_densities=(0,), di_densities=(4, 6, 8)), False),
         _case(gen.admgs(2, mx, bi_densities=(3, 5), di_densities=(4, 6, 8)), False),
         _case(gen.embedded_admgs(1), False),
